@@ -287,7 +287,12 @@ func run(r *eng.Runner) {
 		present, super bool
 		nested         bool
 	}
+	wide0 := wide
 	for _, shape := range shapes {
+		wide = wide0
+		if r.Quick() && shape != "top" && shape != "nested" {
+			wide = 1 // the placement shapes differ in the base only: vary everything one level deep, then block a only
+		}
 		var rec func(c *chain, known []string)
 		emit := func(c *chain) {
 			files := c.files()
